@@ -71,6 +71,16 @@ func (w *zzFaultyStreamWriter) WriteStream(p []byte, stream uint) (int, error) {
 	w.streams = append(w.streams, stream)
 	return w.zzFaultyWriter.Write(p)
 }
+
+// Write is the stream-unaware io.Writer adaptor of a multi-stream connection: the bytes go to
+// whatever stream the connection currently defaults to, recorded as zzNoStream.
+func (w *zzFaultyStreamWriter) Write(p []byte) (int, error) {
+	w.streams = append(w.streams, zzNoStream)
+	return w.zzFaultyWriter.Write(p)
+}
+
+const zzNoStream = ^uint(0)
+
 func (w *zzFaultyStreamWriter) CurrentWriterStream() uint { return 0 }
 func (w *zzFaultyStreamWriter) ResetWriterStream()        {}
 func (w *zzFaultyStreamWriter) SetWriterStream(uint) uint { return 0 }
